@@ -20,6 +20,7 @@ import (
 	"strconv"
 	"strings"
 	"sync"
+	"sync/atomic"
 	"time"
 )
 
@@ -757,6 +758,7 @@ func superviseWorker(chk *Check, exe, work, tier string, w, n int, deadline time
 	prog := filepath.Join(work, fmt.Sprintf("w%d.prog", w))
 	var crashes []crash
 	var skips []string
+	nhang := 0
 	hang := chk.HangSecs
 	if hang == 0 {
 		hang = 120
@@ -798,7 +800,7 @@ func superviseWorker(chk *Check, exe, work, tier string, w, n int, deadline time
 					if rec != lastRec {
 						lastRec = rec
 						lastChange = time.Now()
-					} else if time.Since(lastChange) > time.Duration(hang)*time.Second {
+					} else if time.Since(lastChange) > time.Duration(curHang(hang))*time.Second {
 						hung = true
 						cmd.Process.Kill() //nolint:errcheck
 						werr = <-done
@@ -847,6 +849,18 @@ func superviseWorker(chk *Check, exe, work, tier string, w, n int, deadline time
 		}
 		crashes = append(crashes, c)
 		skips = append(skips, strconv.FormatInt(c.idx, 10))
+		if hung {
+			hangSeen.Store(true)
+			nhang++
+			if nhang >= 4 {
+				// enough evidence: stop this shard (reported as not exhaustive)
+				st, keys := readState(out)
+				if st != nil {
+					st.Done = false
+				}
+				return crashes, st, keys
+			}
+		}
 		if _, err := os.Stat(out); err != nil {
 			// no checkpoint yet: write an empty one so resume works
 			os.WriteFile(out, []byte(`{"classes":{},"families":{},"groups":{}}`), 0o644) //nolint:errcheck
@@ -857,6 +871,18 @@ func superviseWorker(chk *Check, exe, work, tier string, w, n int, deadline time
 		st.Done = false
 	}
 	return crashes, st, keys
+}
+
+// once one hang has been confirmed with the full margin, later ones in the
+// same run are cut short (the run is already a violation; this only bounds
+// its duration).
+var hangSeen atomic.Bool
+
+func curHang(full int) int {
+	if hangSeen.Load() && full > 15 {
+		return 15
+	}
+	return full
 }
 
 func tail(s string, n int) string {
